@@ -392,7 +392,7 @@ func interpret(sh Sheet) ([]markerM, error) {
 	}
 	for i := range ms {
 		for _, s := range []*sideM{&ms[i].F, &ms[i].R} {
-			if s.Delim != 0 && s.TagIndels > 0 && s.TagLen > 0 && s.TagIndels+2 > s.TagLen {
+			if s.Delim != 0 && s.TagIndels > 0 && s.TagLen > 0 && s.TagIndels >= s.TagLen {
 				return nil, fmt.Errorf("tag_indels %d is not smaller than the tag length %d", s.TagIndels, s.TagLen)
 			}
 			if s.Delim != 0 {
